@@ -30,7 +30,7 @@ def sh(cmd, cwd=None, env=None, timeout=900):
     return p.returncode, p.stdout + p.stderr
 
 
-def evaluate(seed: str, props: list[str], skip_suite: bool = False) -> dict:
+def evaluate(seed: str, props: list[str], skip_suite: bool = False, refactor: bool = False) -> dict:
     seed_p = pathlib.Path(seed)
     res: dict = {"seed": str(seed_p), "ok": False}
     tmp = tempfile.mkdtemp(prefix="seval_")
@@ -41,6 +41,10 @@ def evaluate(seed: str, props: list[str], skip_suite: bool = False) -> dict:
             res["error"] = "worktree: " + out[-300:]
             return res
         env = dict(os.environ, PYTHONPATH=wt, PYTHONDONTWRITEBYTECODE="1")
+        equiv = seed_p / "equiv.py"
+        if refactor and equiv.exists():
+            rc, out = sh([PY, str(equiv), os.path.join(tmp, "eq_clean.txt")], cwd=wt, env=env, timeout=1500)
+            res["equiv_clean_rc"] = rc
         demo = seed_p / "demo.py"
         if demo.exists():
             rc, out = sh([PY, str(demo)], cwd=wt, env=env, timeout=600)
@@ -56,6 +60,17 @@ def evaluate(seed: str, props: list[str], skip_suite: bool = False) -> dict:
             return res
         rc, out = sh([PY, "-m", "compileall", "-q", "markdown_it"], cwd=wt, env=env)
         res["compile_rc"] = rc
+        if refactor and equiv.exists():
+            rc, out = sh([PY, str(equiv), os.path.join(tmp, "eq_patched.txt")], cwd=wt, env=env, timeout=1500)
+            res["equiv_patched_rc"] = rc
+            try:
+                a_ = open(os.path.join(tmp, "eq_clean.txt"), "rb").read()
+                b_ = open(os.path.join(tmp, "eq_patched.txt"), "rb").read()
+                res["equiv_identical"] = (a_ == b_ and len(a_) > 0)
+                res["equiv_bytes"] = len(a_)
+            except OSError as e:
+                res["equiv_identical"] = None
+                res["equiv_error"] = str(e)
         if demo.exists():
             rc, out = sh([PY, str(demo)], cwd=wt, env=env, timeout=600)
             res["demo_patched_rc"] = rc
@@ -97,19 +112,24 @@ def main() -> int:
     ap.add_argument("--out", default="/tmp/seed_results")
     ap.add_argument("--jobs", type=int, default=8)
     ap.add_argument("--skip-suite", action="store_true")
+    ap.add_argument("--refactor", action="store_true", help="the directories hold behaviour-preserving refactorings (patch.diff + equiv.py): every check must stay silent")
     a = ap.parse_args()
     sys.path.insert(0, str(VERIF))
     from sa.props import table
     props = [p for p in a.props.split(",") if p] or sorted(table())
     os.makedirs(a.out, exist_ok=True)
     with cf.ThreadPoolExecutor(a.jobs) as ex:
-        futs = {ex.submit(evaluate, s, props, a.skip_suite): s for s in a.seeds}
+        futs = {ex.submit(evaluate, s, props, a.skip_suite, a.refactor): s for s in a.seeds}
         for fu in cf.as_completed(futs):
             r = fu.result()
             name = re.sub(r"[^A-Za-z0-9]+", "_", r["seed"]).strip("_")
             pathlib.Path(a.out, name + ".json").write_text(json.dumps(r, indent=1))
-            print(f"{r['seed']}: clean={r.get('demo_clean_rc')} patched={r.get('demo_patched_rc')} suite={r.get('suite_baseline')} "
-                  f"fired={r.get('fired')} errors={r.get('analysis_errors')} {r.get('error', '')}")
+            if a.refactor:
+                print(f"{r['seed']}: equiv={r.get('equiv_identical')} suite={r.get('suite_baseline')} "
+                      f"fired={r.get('fired')} errors={r.get('analysis_errors')} {r.get('error', '')}")
+            else:
+                print(f"{r['seed']}: clean={r.get('demo_clean_rc')} patched={r.get('demo_patched_rc')} suite={r.get('suite_baseline')} "
+                      f"fired={r.get('fired')} errors={r.get('analysis_errors')} {r.get('error', '')}")
     return 0
 
 
